@@ -255,10 +255,10 @@ Section Top.
 
   Theorem getitem_is_spec_sample_lemma : forall (st : stack value) items rc m,
     groups_ok (s_fused_ops value st) -> init_items value st items rc = inl m ->
-    forall idx, getitem_int value vint proj st m idx = spec_sample value vint proj st items rc (norm_idx value st idx).
+    forall idx, getitem_core value vint proj st m idx = spec_sample value vint proj st items rc (norm_idx value st idx).
   Proof.
     intros st items rc m Hg Hinit idx.
-    destruct (getitem_int_spec value vint proj st items rc m Hg Hinit) as [_ Hspec]. rewrite Hspec.
+    destruct (getitem_core_spec value vint proj st items rc m Hg Hinit) as [_ Hspec]. rewrite Hspec.
     unfold spec_sample. rewrite (eff_plan_is_spec_plan st items rc m Hg Hinit). reflexivity.
   Qed.
 End Top.
